@@ -518,3 +518,33 @@ Section Lossless.
     exact (F Hrest).
   Qed.
 End Lossless.
+
+(* ------------------------------------------------------------------ (E) expiry timers *)
+(* events in time order, every event less than [wait] after the previous progress *)
+Fixpoint blk_tev_paced (wait last : Z) (l : list blk_tev) : Prop :=
+  match l with
+  | [] => True
+  | TvProgress t :: l' => last <= t < last + wait /\ blk_tev_paced wait t l'
+  | TvCheck t :: l' => last <= t < last + wait /\ blk_tev_paced wait last l'
+  end.
+
+(* state is kept while the transfer makes progress: if every block follows the previous one
+   within MAX_TRANSMIT_WAIT (which the message layer guarantees for an exchange that is not
+   abandoned), no run of the timeout function deletes the state, however long the whole
+   transfer takes *)
+Theorem blk_timed_kept wait : forall l last, blk_tev_paced wait last l ->
+  fst (blk_timed_run wait true last l) = true.
+Proof.
+  induction l as [|[t|t] l IH]; intros last Hp; cbn [blk_timed_run blk_tev_paced] in *.
+  - reflexivity.
+  - destruct Hp as (H1 & H2). apply IH, H2.
+  - destruct Hp as (H1 & H2). destruct (last + wait <=? t) eqn:E; [lia|]. cbn [andb negb]. apply IH, H2.
+Qed.
+
+(* without the refresh the same paced transfer is cut off once it lasts longer than [wait] *)
+Theorem blk_timed_norefresh_refuted :
+  exists l, blk_tev_paced 93 0 l /\ fst (blk_timed_run_norefresh 93 true 0 l) = false.
+Proof.
+  exists [TvProgress 40; TvCheck 41; TvProgress 80; TvCheck 81; TvProgress 120; TvCheck 121].
+  split; [cbn; lia|vm_compute; reflexivity].
+Qed.
